@@ -3,9 +3,9 @@
 set -e
 cd "$(dirname "$0")"
 export CARGO_NET_OFFLINE=true
-verus --version | grep -q "0.2026.09.13" || { echo "verus 0.2026.09.13 not found"; exit 1; }
-cargo kani --version | grep -q "0.68.0" || { echo "kani 0.68.0 not found"; exit 1; }
-cbmc --version | grep -q "^6.11" || { echo "cbmc 6.11 not found"; exit 1; }
+verus --version 2>&1 | cat | grep -q "0.2026.09.13" || { echo "verus 0.2026.09.13 not found"; exit 1; }
+cargo kani --version 2>&1 | cat | grep -q "0.68.0" || { echo "kani 0.68.0 not found"; exit 1; }
+cbmc --version 2>&1 | cat | grep -q "^6.11" || { echo "cbmc 6.11 not found"; exit 1; }
 python3 -B -c "import vlib.main, vlib.kanirun; n=len(vlib.kanirun.scan_catalogue()); print('catalogue: %d Kani obligations' % n); assert n > 0"
 mkdir -p evidence replay
 echo "setup ok"
